@@ -98,6 +98,7 @@ static inline void ABTI_sync_lifo_push(ABTI_sync_lifo *p_lifo,
                                                        (void **)&p_cur_top,
                                                        &cur_tag);
         p_elem->p_next = p_cur_top;
+        ABTI_VERIF_POINT(ABTI_VERIF_P_LIFO_PUSH_BEFORE_CAS);
         /* tag is incremented to avoid the ABA problem. */
         if (ABTU_likely(ABTD_atomic_bool_cas_weak_tagged_ptr(&p_lifo->p_top,
                                                              p_cur_top, cur_tag,
@@ -105,6 +106,7 @@ static inline void ABTI_sync_lifo_push(ABTI_sync_lifo *p_lifo,
                                                              cur_tag + 1))) {
             return;
         }
+        ABTI_VERIF_COV(ABTI_VERIF_C_LIFO_CAS_RETRY);
     }
 #else
     ABTD_spinlock_acquire(&p_lifo->lock);
@@ -125,6 +127,7 @@ static inline ABTI_sync_lifo_element *ABTI_sync_lifo_pop(ABTI_sync_lifo *p_lifo)
         if (p_cur_top == NULL)
             return NULL;
         ABTI_sync_lifo_element *p_next = p_cur_top->p_next;
+        ABTI_VERIF_POINT(ABTI_VERIF_P_LIFO_POP_BEFORE_CAS);
         /* tag is incremented to avoid the ABA problem. */
         if (ABTU_likely(ABTD_atomic_bool_cas_weak_tagged_ptr(&p_lifo->p_top,
                                                              p_cur_top, cur_tag,
@@ -132,6 +135,7 @@ static inline ABTI_sync_lifo_element *ABTI_sync_lifo_pop(ABTI_sync_lifo *p_lifo)
                                                              cur_tag + 1))) {
             return p_cur_top;
         }
+        ABTI_VERIF_COV(ABTI_VERIF_C_LIFO_CAS_RETRY);
     }
 #else
     ABTI_sync_lifo_element *p_ret;
